@@ -31,6 +31,7 @@ type PropSpec struct {
 	Trusted     []string   `json:"trusted_base,omitempty"`
 	Level       string     `json:"level,omitempty"`
 	Replay      *ReplaySpec `json:"replay,omitempty"`
+	ReplayMore  []ReplaySpec `json:"replay_more,omitempty"` // further harnesses tried when the first one finds nothing
 	Conformance []ReplaySpec `json:"conformance,omitempty"` // thorough tier: bounded runs of assumed library contracts
 }
 
@@ -404,7 +405,7 @@ func cmdCheck(args []string) int {
 		return out
 	}
 	opt := solveOpts{timeout: 20, seed: seed, outDir: filepath.Join(*verif, "out", fmt.Sprintf("%s-%s-%d", ps.ID, *tier, os.Getpid())),
-		cacheDir: filepath.Join(*verif, ".cache"), useCache: true, workers: 5, replay: ps.Replay, property: ps.ID}
+		cacheDir: filepath.Join(*verif, ".cache"), useCache: true, workers: 5, replay: ps.Replay, replayMore: ps.ReplayMore, property: ps.ID}
 	if os.Getenv("VERIF_NOCACHE") != "" {
 		opt.useCache = false
 	}
